@@ -1,8 +1,8 @@
 package main
 
 import (
-	"go/ast"
 	"fmt"
+	"go/ast"
 	"go/types"
 	"sort"
 	"strings"
@@ -470,8 +470,8 @@ func (c *Ctx) Mod2() *ModAnalysis {
 
 type denseRoleNames struct {
 	bins, count, offset, minIndex, maxIndex string
-	trigger                                string // paginated: the compaction-scheduling field
-	err                                    string
+	trigger                                 string // paginated: the compaction-scheduling field
+	err                                     string
 }
 
 var dr = denseRoleNames{bins: "bins", count: "count", offset: "offset", minIndex: "minIndex", maxIndex: "maxIndex", trigger: "bufferCompactionTriggerLen"}
@@ -543,7 +543,7 @@ func (c *Ctx) resolveDenseRoles() {
 // Any OTHER unexported module function met on a path — typically a helper extracted by a refactoring — is
 // executed inline, so that the rules see the same stores, calls and branches as before the extraction.
 var knownHelpers = map[string]bool{
-	"dataset.Dataset.sort": true,
+	"dataset.Dataset.sort":                 true,
 	"ddsketch.DDSketch.decodeAndMergeWith": true, "ddsketch.changeStoreMapping": true,
 	"encoding.initUvarint64Sizes": true, "encoding.initVarfloat64Sizes": true, "encoding.newSubFlag": true,
 	"mapping.buildFloat64": true, "mapping.getExponent": true, "mapping.getSignificandPlusOne": true,
@@ -552,7 +552,7 @@ var knownHelpers = map[string]bool{
 	"mapping.CubicallyInterpolatedMapping.string": true, "mapping.LinearlyInterpolatedMapping.string": true, "mapping.LogarithmicMapping.string": true,
 	"mapping.decodeLogLikeIndexMapping": true, "mapping.withinTolerance": true,
 	"stat.SummaryStatistics.sumWithCompensation": true,
-	"store.BufferedPaginatedStore.compact": true, "store.BufferedPaginatedStore.index": true, "store.BufferedPaginatedStore.lineIndex": true,
+	"store.BufferedPaginatedStore.compact":       true, "store.BufferedPaginatedStore.index": true, "store.BufferedPaginatedStore.lineIndex": true,
 	"store.BufferedPaginatedStore.minIndexWithCumulCount": true, "store.BufferedPaginatedStore.newPagesLen": true,
 	"store.BufferedPaginatedStore.page": true, "store.BufferedPaginatedStore.pageIndex": true, "store.BufferedPaginatedStore.sortBuffer": true,
 	"store.CollapsingHighestDenseStore.adjust": true, "store.CollapsingHighestDenseStore.extendRange": true,
